@@ -519,3 +519,10 @@ more("C15",
           "call about one format's file never changes the other's (OtherFormatUntouched). The file and two-position histories are replayed in pyramid directories whose names rotate "
           "over glob / regex / format metacharacters, spaces, dots, a leading dash, non-ASCII and nested names, spelled absolute, relative and with a trailing slash.",
      note="The directory name is not modelled in Mask.tla (a tile file is a function of position and format); it is an environment dimension of the replay: 10 names x 3 spellings.")
+more("C11",
+     text="The map is replayed in both byte orders and all common item sizes (as FITS readers hand it out), non-contiguous and read-only; edge-family points are also approached to "
+          "within 1e-6 .. 1e-12 rad of every cell edge, the celestial poles and the seam, and the Galactic sampler is asked at and within 1e-6 rad of both Galactic poles (row judged "
+          "against TLC's table).")
+more("C16",
+     text="Histories in which the client edits the object's WCS in place between calls (EditWcs / EditOK in Parity.tla: the parity is a function of the object's current matrix; the "
+          "reference picture is reset at the edit).")
